@@ -116,3 +116,16 @@ func init() {
 		Stages: []Stage{{Name: "matrix", Pkg: "./mon/c19", Procs: 2, Batches: [2]int{4, 8}, TimeoutS: [2]int{900, 3600}}},
 	}
 }
+
+func init() {
+	properties["C14"] = Property{
+		Level: "exploration",
+		Rule:  "one case = (script from 5 families, timeout setting {location control 50-300 ms, system default 400 ms, timeouts disabled}, position {RunJavascript, rule condition, rule action}, state kind); non-terminating => error/non-complete node, return not before the limit and (canary-judged) within 12 s of it; throwing/invalid => error, never success; finishing => expected value with exactly its bindings visible; non-trivial = script is throwing, invalid or non-terminating, or a timeout is configured; distinct by the case tuple",
+		Floor: [2]int{30, 100},
+		Assumptions: []string{"bounded progress is judged against a canary timer in the same Go runtime: only when the canary fired on time and the call is still blocked 12 s later is it a violation; a late canary makes the case inconclusive", "scripts blocked inside a host function (Env.sleep(1e12)) are out of reach: otto can only be interrupted between statements"},
+		Stages: []Stage{
+			{Name: "timeouts-on", Pkg: "./mon/c14", Procs: 2, Batches: [2]int{2, 4}, TimeoutS: [2]int{900, 3600}},
+			{Name: "timeouts-off", Pkg: "./mon/c14", Procs: 2, Batches: [2]int{1, 2}, TimeoutS: [2]int{900, 3600}, Env: []string{"C14_TIMEOUTS=off"}},
+		},
+	}
+}
